@@ -1,5 +1,5 @@
 (* C05S — source tie by translation for the reducers' scalar kernels.
-   Statements only (proofs: Proofs/ChainP.v).  Model/Chains.v is REGENERATED from /repo's Go sources
+   Statements only (proofs: Proofs/Chain*P.v).  Model/Chains.v is REGENERATED from /repo's Go sources
    on every run by the translator harness/chainx (go/ast): the fold functions, identities and formulas of sum/max/min/avg/_var/std/mean in tensor/internal/cputensor/reducers.go.
    Each theorem interprets the generated expression over an ARBITRARY scalar type (Model/ChainIR.v:
    evx / evr) and states that it IS the scalar function the model applies — operand order, constants,
@@ -9,50 +9,50 @@
 From Coq Require Import String List ZArith Bool.
 From Qeep Require Import Model.Scalar Model.Nd Model.Data Model.ChainIR.
 From Qeep Require Model.Chains.
-From Qeep Require Import Proofs.ChainP.
+From Qeep Require Import Proofs.WiringP Proofs.ChainBaseP Proofs.ChainRedP.
 Import ListNotations.
 Local Open Scope string_scope.
 
 Theorem sum_is_the_models_reducer :
   forall (A : Type) (SA : Scalar A) (t : tensor A),
   evr rfuel Chains.k_sum t [] [] (kf_body Chains.k_sum) = r_sum t.
-Proof. exact @ChainP.k_sum_ok. Qed.
+Proof. exact @ChainRedP.k_sum_ok. Qed.
 Print Assumptions sum_is_the_models_reducer.
 
 Theorem max_is_the_models_reducer :
   forall (A : Type) (SA : Scalar A) (t : tensor A),
   evr rfuel Chains.k_max t [] [] (kf_body Chains.k_max) = r_max t.
-Proof. exact @ChainP.k_max_ok. Qed.
+Proof. exact @ChainRedP.k_max_ok. Qed.
 Print Assumptions max_is_the_models_reducer.
 
 Theorem min_is_the_models_reducer :
   forall (A : Type) (SA : Scalar A) (t : tensor A),
   evr rfuel Chains.k_min t [] [] (kf_body Chains.k_min) = r_min t.
-Proof. exact @ChainP.k_min_ok. Qed.
+Proof. exact @ChainRedP.k_min_ok. Qed.
 Print Assumptions min_is_the_models_reducer.
 
 Theorem avg_is_the_models_reducer :
   forall (A : Type) (SA : Scalar A) (t : tensor A),
   evr rfuel Chains.k_avg t [] [] (kf_body Chains.k_avg) = r_avg t.
-Proof. exact @ChainP.k_avg_ok. Qed.
+Proof. exact @ChainRedP.k_avg_ok. Qed.
 Print Assumptions avg_is_the_models_reducer.
 
 Theorem mean_is_the_models_reducer :
   forall (A : Type) (SA : Scalar A) (t : tensor A),
   evr rfuel Chains.k_mean t [] [] (kf_body Chains.k_mean) = r_mean t.
-Proof. exact @ChainP.k_mean_ok. Qed.
+Proof. exact @ChainRedP.k_mean_ok. Qed.
 Print Assumptions mean_is_the_models_reducer.
 
 Theorem var_is_the_models_reducer :
   forall (A : Type) (SA : Scalar A) (t : tensor A),
   evr rfuel Chains.k_var t [] [] (kf_body Chains.k_var) = r_var t.
-Proof. exact @ChainP.k_var_ok. Qed.
+Proof. exact @ChainRedP.k_var_ok. Qed.
 Print Assumptions var_is_the_models_reducer.
 
 Theorem std_is_the_models_reducer :
   forall (A : Type) (SA : Scalar A) (t : tensor A),
   evr rfuel Chains.k_std t [] [] (kf_body Chains.k_std) = r_std t.
-Proof. exact @ChainP.k_std_ok. Qed.
+Proof. exact @ChainRedP.k_std_ok. Qed.
 Print Assumptions std_is_the_models_reducer.
 
 Theorem fold_literals_are_interpretable :
@@ -61,5 +61,10 @@ Theorem fold_literals_are_interpretable :
   kfn2_total Chains.k_max "max#0" [] /\
   kfn2_total Chains.k_min "min#0" [] /\
   (forall xbar : A, kfn2_total Chains.k_var "_var#0" [("xBar", xbar)]).
-Proof. exact @ChainP.k_folds_total. Qed.
+Proof. exact @ChainRedP.k_folds_total. Qed.
 Print Assumptions fold_literals_are_interpretable.
+
+Theorem method_layer_of_reducers_is_as_modelled :
+  same_wiring reducer_methods.
+Proof. exact @WiringP.wiring_reducers. Qed.
+Print Assumptions method_layer_of_reducers_is_as_modelled.
